@@ -2,8 +2,8 @@
 from harness import check, replay
 
 LENSES = {
-    "quick": ["subs_tensor"],
-    "thorough": ["subs_tensor"],
+    "quick": ["subs_tensor", "gauss_subs"],
+    "thorough": ["subs_tensor", "gauss_subs", "core_stackcat"],
 }
 
 
